@@ -1367,3 +1367,72 @@ def rule_error_after_clamp(ctx):
                 r.ok(q, sample={"funnel": fn, "error": src_of(a)[:60], "kept rank final": True})
     r.floor(n, 2, "discarded-weight computations in the truncation funnels")
     return r
+
+
+def rule_fixed_form_claim(ctx):
+    r = RuleResult(
+        "fixed-form-claim",
+        "a registered split driver without an `absorb` parameter returns one fixed form whatever absorb mode was requested "
+        "(parse_split_opts injects an option only into a signature that accepts it); the isometry claim "
+        "parse_split_left_right_isom(method, absorb) must therefore decide such a driver by its *registered default* form: "
+        "it (or the parser it calls) tests the driver's capability through the driver registry and rebinds the mode it "
+        "tests from the default-absorb registry",
+    )
+    m = ctx.prog.module(DECOMP)
+    reg = ctx.prog.func(DECOMP, "register_split_driver")
+    fn_reg = dflt_reg = None
+    for a in ast.walk(reg.node):
+        if isinstance(a, ast.Assign) and len(a.targets) == 1 and isinstance(a.targets[0], ast.Subscript) and isinstance(a.targets[0].value, ast.Name) and isinstance(a.value, ast.Name):
+            if a.value.id in reg.params:
+                if a.value.id != reg.params[0]:
+                    dflt_reg = a.targets[0].value.id
+            else:
+                fn_reg = a.targets[0].value.id
+    if fn_reg is None or dflt_reg is None:
+        raise AnalysisError("register_split_driver: the driver / default-absorb registries were not identified")
+    fixed = sorted({key for f, how, key in _registered_drivers(ctx) if how == "register_split_driver" and "absorb" not in f.params and key})
+    claim = ctx.prog.func(DECOMP, "parse_split_left_right_isom")
+    ret = next((x.value for x in ast.walk(claim.node) if isinstance(x, ast.Return) and isinstance(x.value, ast.Tuple) and len(x.value.elts) == 2), None)
+    if ret is None:
+        raise AnalysisError("parse_split_left_right_isom: does not return a pair of flags")
+    ldefs = {a.targets[0].id: a.value for a in ast.walk(claim.node) if isinstance(a, ast.Assign) and len(a.targets) == 1 and isinstance(a.targets[0], ast.Name)}
+    tested = set()
+    for e in ret.elts:
+        if isinstance(e, ast.Name) and e.id in ldefs:
+            e = ldefs[e.id]
+        if isinstance(e, ast.Compare) and isinstance(e.left, ast.Name):
+            tested.add(e.left.id)
+    # the claim function and the same-module parsers it calls
+    scope = [claim]
+    for c in ast.walk(claim.node):
+        if isinstance(c, ast.Call) and isinstance(c.func, ast.Name):
+            g = m.functions.get(c.func.id) if hasattr(m, "functions") else None
+            if g is None:
+                try:
+                    g = ctx.prog.func(DECOMP, c.func.id)
+                except Exception:
+                    g = None
+            if g is not None and g is not claim:
+                scope.append(g)
+    handled = None
+    for g in scope:
+        for st in ast.walk(g.node):
+            if not isinstance(st, ast.If):
+                continue
+            if not any(isinstance(y, ast.Name) and y.id == fn_reg for y in ast.walk(st.test)):
+                continue
+            for a in st.body + st.orelse:
+                if isinstance(a, ast.Assign) and any(isinstance(t, ast.Name) and (g is not claim or t.id in tested) for t in a.targets) \
+                        and any(isinstance(y, ast.Subscript) and isinstance(y.value, ast.Name) and y.value.id == dflt_reg for y in ast.walk(a.value)):
+                    handled = (g, st)
+    for key in fixed:
+        q = f"parse_split_left_right_isom[{key}]"
+        if handled is not None:
+            r.ok(q, sample={"driver": key, "fixed form": "no absorb parameter", "claim decided by": f"{dflt_reg}[method] under a test on {fn_reg} in {handled[0].name}"})
+        else:
+            r.bad(Finding("fixed-form-claim", "parse_split_left_right_isom",
+                          f"driver '{key}' takes no absorb option and always returns its registered form, but the isometry claim is decided from the *requested* absorb mode: "
+                          f"tensor_split(T, ..., method='{key}', absorb=<the other side>) flags the positive semi-definite factor as isometric",
+                          where=f"{m.relpath}:{claim.lineno}", operand=str(key)))
+    r.floor(len(fixed), 2, "registered drivers with a fixed form")
+    return r
